@@ -107,6 +107,82 @@ def gen_case(rng, n_ops, family=None, bad_end=None):
                 lines.append("e %#x" % rng.choice(absent))
     return fam, lines
 
+ASSERT_SHAPES = ["erase_empty", "erase_null_link", "erase_leaf_other_prefix_shared_nibble", "erase_rootleaf_other_prefix_shared_nibble",
+                 "erase_leaf_other_prefix_no_shared_nibble", "erase_inner_other_prefix", "erase_right_leaf_bit_clear",
+                 "erase_erased_key", "insert_present"]
+
+def set_nibble(k, pos, nb):
+    sh = nib_shift(pos)
+    return (k & ~(0xF << sh) & M64) | (nb << sh)
+
+def gen_assert_case(rng, shape=None):
+    """assertion-path stream: a valid history, then ONE call that violates a documented precondition (erase of an absent
+    key of a chosen shape, insert of a present key).  Real code and model must both stop in the assertion; the harness then
+    re-checks that nothing changed (oracle kind assert-path-damage)."""
+    shape = shape or rng.choice(ASSERT_SHAPES)
+    a = rng.choice([rng.getrandbits(64), rng.getrandbits(64) & 0xFFFFFF, 0, M64, rng.getrandbits(64) | (0xF << 60)])
+    lines, present = [], []
+    def ins(k):
+        if k not in present:
+            present.append(k); lines.append(rng.choice(["i", "o"]) + " %#x %d" % (k, rng.randrange(1, 1000)))
+    if shape == "erase_empty":
+        if rng.random() < 0.5:           # emptied rather than never used: nodes exist, all bits clear
+            ins(a); lines.append("e %#x" % a); present.remove(a)
+            bad = rng.choice([a, differ_at(rng, a, rng.randrange(16))])
+        else:
+            bad = a
+        lines.append("e %#x" % bad)
+        return shape, lines
+    p = rng.randrange(0, 14)             # a and b first differ at nibble p: a's leaf hangs below an inner node of depth p
+    b = differ_at(rng, a, p)
+    if shape == "erase_rootleaf_other_prefix_shared_nibble":
+        ins(a)
+        for i in rng.sample(range(16), rng.randint(0, 4)):
+            ins(set_nibble(a, 15, i))
+        q = rng.randrange(0, 15)
+        bad = a ^ (rng.randrange(1, 16) << nib_shift(q))
+    else:
+        first, second = (a, b) if rng.random() < 0.5 else (b, a)
+        ins(first); ins(second)
+        for i in rng.sample(range(16), rng.randint(0, 3)):
+            ins(set_nibble(a, 15, i))
+        if rng.random() < 0.4:
+            ins(differ_at(rng, b, rng.randrange(p + 1, 16)))
+        if shape == "erase_null_link":
+            free = [x for x in range(16) if all(((k >> nib_shift(p)) & 0xF) != x for k in present)]
+            bad = set_nibble(a, p, rng.choice(free)) if free else differ_at(rng, a, p)
+        elif shape == "erase_leaf_other_prefix_shared_nibble":
+            q = rng.randrange(p + 1, 15)
+            bad = a ^ (rng.randrange(1, 16) << nib_shift(q))          # same low nibble as the present key a
+        elif shape == "erase_leaf_other_prefix_no_shared_nibble":
+            q = rng.randrange(p + 1, 15)
+            freeb = [x for x in range(16) if set_nibble(a, 15, x) not in present]
+            bad = set_nibble(a ^ (rng.randrange(1, 16) << nib_shift(q)), 15, rng.choice(freeb) if freeb else (a & 0xF))
+        elif shape == "erase_inner_other_prefix":
+            if p == 0:
+                p2 = rng.randrange(1, 14); c = differ_at(rng, a, p2); ins(c)   # inner node of depth p2 below the root
+                q = rng.randrange(1, p2 + 1) if p2 > 1 else 1
+                bad = set_nibble(a, rng.randrange(1, p2), (((a >> nib_shift(1)) & 0xF) + 1) % 16) if p2 > 1 else differ_at(rng, a, 15)
+            else:
+                q = rng.randrange(0, p)
+                bad = a ^ (rng.randrange(1, 16) << nib_shift(q))
+        elif shape == "erase_right_leaf_bit_clear":
+            freeb = [x for x in range(16) if set_nibble(a, 15, x) not in present]
+            bad = set_nibble(a, 15, rng.choice(freeb)) if freeb else differ_at(rng, a, 14)
+        elif shape == "erase_erased_key":
+            bad = rng.choice(present); lines.append("e %#x" % bad); present.remove(bad)
+        else:
+            bad = None
+    if rng.random() < 0.5:
+        lines.append("it")
+    if shape == "insert_present":
+        lines.append("i %#x 7" % rng.choice(present))
+    else:
+        if bad in present:               # the construction collided with a present key: fall back to a plain absent neighbour
+            bad = next(k for k in (differ_at(rng, a, 15) for _ in range(64)) if k not in present)
+        lines.append("e %#x" % bad)
+    return shape, lines
+
 def corpus():
     """minimised past failures first"""
     c = []
@@ -120,6 +196,17 @@ def corpus():
         b = a ^ (0x5 << nib_shift(pos))
         c.append(("corpus-pos%d" % pos, ["i %#x 1" % a, "i %#x 2" % b, "f %#x" % a, "f %#x" % b, "it", "e %#x" % a, "it",
                                          "i %#x 3" % a, "it"]))
+    # assertion paths (a seeded change moved erase's prefix assertion into the inner-node branch: a leaf's prefix was then
+    # never compared and "e 0x15" below silently cleared key 0x5's bit)
+    c.append(("corpus-assert-rootleaf-shared-nibble", ["i 0x5 1", "it", "e 0x15"]))
+    c.append(("corpus-assert-leaf-shared-nibble", ["i 0x1000000000000005 1", "i 0x2000000000000005 2", "e 0x1000000000000105"]))
+    c.append(("corpus-assert-leaf-no-shared-nibble", ["i 0x1000000000000005 1", "i 0x2000000000000005 2", "e 0x1000000000000106"]))
+    c.append(("corpus-assert-inner-prefix", ["i 0x1200000000000005 1", "i 0x1300000000000005 2", "e 0x2200000000000005"]))
+    c.append(("corpus-assert-null-link", ["i 0x1000000000000005 1", "i 0x2000000000000005 2", "e 0x3000000000000005"]))
+    c.append(("corpus-assert-empty", ["e 0x5"]))
+    c.append(("corpus-assert-bit-clear", ["i 0x5 1", "e 0x6"]))
+    c.append(("corpus-assert-erased", ["i 0x5 1", "e 0x5", "e 0x5"]))
+    c.append(("corpus-assert-insert-present", ["i 0x5 1", "o 0x15 2", "i 0x5 3"]))
     return c
 
 def exhaustive_small(max_len=3):
